@@ -2,7 +2,9 @@ package sym
 
 import (
 	"fmt"
+	"go/constant"
 	"go/types"
+	"strconv"
 	"strings"
 
 	"golang.org/x/tools/go/ssa"
@@ -16,22 +18,35 @@ type evalCtx struct {
 	old   *State             // state for old(...)
 	env   map[string]binding // names bound by the caller (callee-contract application) or quantifiers
 	fr    *frame             // frame whose locals are visible (own-contract evaluation)
+	pkg   string             // package path the contract text belongs to (for unqualified globals)
 	inOld bool
 }
 
 type typed struct {
-	t   smt.T
-	typ types.Type // may be nil for spec-level values
+	t    smt.T
+	typ  types.Type              // may be nil for spec-level values
+	pend func(sort string) smt.T // result-polymorphic spec application: resolved by the sort of the other comparison operand
 }
+
+func constantString(c *ssa.Const) string { return constant.StringVal(c.Value) }
 
 // evalClause evaluates a clause of the function under verification: parameters (entry values), results, locals.
 func (x *Exec) evalClause(e gcl.Expr, st, old *State, fr *frame, results []smt.T) (smt.T, error) {
+	return x.evalClauseExtra(e, st, old, fr, results, nil)
+}
+
+func (x *Exec) evalClauseExtra(e gcl.Expr, st, old *State, fr *frame, results []smt.T, callResults []smt.T) (smt.T, error) {
 	env := map[string]binding{}
 	for n, b := range x.params {
 		env[n] = b
 	}
-	if recv := x.fn.Signature.Recv(); recv != nil && len(x.fn.Params) > 0 {
-		env["this"] = x.params[x.fn.Params[0].Name()]
+	if x.fn != nil {
+		if recv := x.fn.Signature.Recv(); recv != nil && len(x.fn.Params) > 0 {
+			env["this"] = x.params[x.fn.Params[0].Name()]
+		}
+	}
+	if x.fn == nil {
+		return x.evalExpr(e, &evalCtx{st: st, old: old, env: env, pkg: x.contract.Pkg})
 	}
 	res := x.fn.Signature.Results()
 	for i := 0; i < res.Len() && i < len(results); i++ {
@@ -40,11 +55,21 @@ func (x *Exec) evalClause(e gcl.Expr, st, old *State, fr *frame, results []smt.T
 			env[n] = binding{results[i], res.At(i).Type()}
 		}
 	}
-	return x.evalExpr(e, &evalCtx{st: st, old: old, env: env, fr: fr})
+	for i, r := range callResults {
+		env[fmt.Sprintf("c%d", i)] = binding{r, nil}
+	}
+	pkg := ""
+	if x.contract != nil {
+		pkg = x.contract.Pkg
+	}
+	return x.evalExpr(e, &evalCtx{st: st, old: old, env: env, fr: fr, pkg: pkg})
 }
 
 func (x *Exec) evalExpr(e gcl.Expr, c *evalCtx) (smt.T, error) {
 	v, err := x.evalTyped(e, c)
+	if err == nil && v.pend != nil {
+		return v.t, fmt.Errorf("the sort of %s cannot be determined from its context", e)
+	}
 	return v.t, err
 }
 
@@ -55,20 +80,34 @@ func (x *Exec) curState(c *evalCtx) *State {
 	return c.st
 }
 
+func parseIntLit(s string) (string, error) {
+	if strings.HasPrefix(s, "0x") || strings.HasPrefix(s, "0X") {
+		v, err := strconv.ParseUint(s[2:], 16, 64)
+		if err != nil {
+			return "", err
+		}
+		return strconv.FormatUint(v, 10), nil
+	}
+	for _, ch := range s {
+		if ch < '0' || ch > '9' {
+			return "", fmt.Errorf("bad integer %q", s)
+		}
+	}
+	return s, nil
+}
+
 func (x *Exec) evalTyped(e gcl.Expr, c *evalCtx) (typed, error) {
 	switch e := e.(type) {
 	case gcl.IntLit:
-		var n int64
-		if _, err := fmt.Sscan(e.Val, &n); err != nil {
-			if _, err2 := fmt.Sscanf(e.Val, "0x%x", &n); err2 != nil {
-				return typed{}, fmt.Errorf("bad integer %q", e.Val)
-			}
+		d, err := parseIntLit(e.Val)
+		if err != nil {
+			return typed{}, err
 		}
-		return typed{smt.IntLit(n), types.Typ[types.Int]}, nil
+		return tv(smt.IntLitS(d), types.Typ[types.Int]), nil
 	case gcl.BoolLit:
-		return typed{smt.BoolLit(e.Val), types.Typ[types.Bool]}, nil
+		return tv(smt.BoolLit(e.Val), types.Typ[types.Bool]), nil
 	case gcl.NilLit:
-		return typed{smt.IntLit(0), types.Typ[types.UntypedNil]}, nil
+		return tv(smt.IntLit(0), types.Typ[types.UntypedNil]), nil
 	case gcl.Ident:
 		return x.evalIdent(e.Name, c)
 	case gcl.Old:
@@ -81,9 +120,9 @@ func (x *Exec) evalTyped(e gcl.Expr, c *evalCtx) (typed, error) {
 			return typed{}, err
 		}
 		if e.Op == "!" {
-			return typed{smt.Not(v.t), types.Typ[types.Bool]}, nil
+			return tv(smt.Not(v.t), types.Typ[types.Bool]), nil
 		}
-		return typed{smt.App(smt.Int, "-", v.t), v.typ}, nil
+		return tv(smt.App(smt.Int, "-", v.t), v.typ), nil
 	case gcl.Cond:
 		cc, err := x.evalTyped(e.C, c)
 		if err != nil {
@@ -97,7 +136,8 @@ func (x *Exec) evalTyped(e gcl.Expr, c *evalCtx) (typed, error) {
 		if err != nil {
 			return typed{}, err
 		}
-		return typed{smt.Ite(cc.t, a.t, b.t), a.typ}, nil
+		a, b = x.unifyNil(a, b)
+		return tv(smt.Ite(cc.t, a.t, b.t), a.typ), nil
 	case gcl.Binary:
 		return x.evalBinary(e, c)
 	case gcl.Quant:
@@ -107,12 +147,19 @@ func (x *Exec) evalTyped(e gcl.Expr, c *evalCtx) (typed, error) {
 			c2.env[k] = v
 		}
 		var decl []string
-		for _, v := range e.Vars {
-			name := v + "!b"
-			c2.env[v] = binding{smt.Raw(name, smt.Int), types.Typ[types.Int]}
-			decl = append(decl, "("+name+" Int)")
+		x.qdepth++
+		for i, v := range e.Vars {
+			name := fmt.Sprintf("%s!b%d", v, x.qdepth)
+			srt, gt := smt.Int, types.Type(types.Typ[types.Int])
+			if i < len(e.Sorts) && e.Sorts[i] != "" {
+				srt = x.specSort(e.Sorts[i])
+				gt = x.specGoType(e.Sorts[i])
+			}
+			c2.env[v] = binding{smt.Raw(name, srt), gt}
+			decl = append(decl, "("+name+" "+srt+")")
 		}
 		body, err := x.evalTyped(e.Body, &c2)
+		x.qdepth--
 		if err != nil {
 			return typed{}, err
 		}
@@ -120,12 +167,12 @@ func (x *Exec) evalTyped(e gcl.Expr, c *evalCtx) (typed, error) {
 		if e.Forall {
 			q = "forall"
 		}
-		return typed{smt.Raw("("+q+" ("+strings.Join(decl, " ")+") "+body.t.S+")", smt.Bool), types.Typ[types.Bool]}, nil
+		return tv(smt.Raw("("+q+" ("+strings.Join(decl, " ")+") "+body.t.S+")", smt.Bool), types.Typ[types.Bool]), nil
 	case gcl.Field:
 		// package-qualified global (io.EOF, pq.Done)?
 		if id, ok := e.X.(gcl.Ident); ok {
 			if _, bound := c.env[id.Name]; !bound && x.localNamed(id.Name, c) == nil {
-				if g := x.lookupQualifiedGlobal(id.Name, e.Name); g != nil {
+				if g := x.lookupQualifiedGlobal(id.Name, e.Name, c); g != nil {
 					return x.globalValue(g, c)
 				}
 			}
@@ -144,19 +191,58 @@ func (x *Exec) evalTyped(e gcl.Expr, c *evalCtx) (typed, error) {
 		if err != nil {
 			return typed{}, err
 		}
-		switch t := base.typ.Underlying().(type) {
+		if base.typ == nil {
+			if strings.HasPrefix(base.t.Sort, "(Array ") {
+				return tv(smt.Select(base.t, idx.t), nil), nil
+			}
+			return typed{}, fmt.Errorf("cannot index %s", e.X)
+		}
+		bt := base.typ
+		if p, ok := bt.Underlying().(*types.Pointer); ok {
+			if _, isArr := p.Elem().Underlying().(*types.Array); isArr {
+				bt = p.Elem()
+				// base.t is the reference of the array aggregate
+				arr := bt.Underlying().(*types.Array)
+				if isAggregate(arr.Elem()) {
+					return tv(x.elemRef(arr.Elem(), base.t, idx.t), types.NewPointer(arr.Elem())), nil
+				}
+				hn, hs := x.elemHeap(arr.Elem())
+				h := x.heap(x.curState(c), hn, hs)
+				return tv(smt.Select(smt.Select(h, base.t), idx.t), arr.Elem()), nil
+			}
+		}
+		switch t := bt.Underlying().(type) {
 		case *types.Slice:
+			if isAggregate(t.Elem()) {
+				return tv(x.elemRef(t.Elem(), sArr(base.t), smt.Add(sOff(base.t), idx.t)), types.NewPointer(t.Elem())), nil
+			}
 			hn, hs := x.elemHeap(t.Elem())
 			h := x.heap(x.curState(c), hn, hs)
-			return typed{smt.Select(smt.Select(h, sArr(base.t)), smt.Add(sOff(base.t), idx.t)), t.Elem()}, nil
+			return tv(smt.Select(smt.Select(h, sArr(base.t)), smt.Add(sOff(base.t), idx.t)), t.Elem()), nil
 		case *types.Array:
-			return typed{smt.Select(base.t, idx.t), t.Elem()}, nil
+			return tv(smt.Select(base.t, idx.t), t.Elem()), nil
 		}
 		return typed{}, fmt.Errorf("cannot index %s", e.X)
 	case gcl.Call:
 		return x.evalCall(e, c)
 	}
 	return typed{}, fmt.Errorf("unsupported expression %T", e)
+}
+
+func (x *Exec) unifyNil(a, b typed) (typed, typed) {
+	isNil := func(t typed) bool {
+		bt, ok := t.typ.(*types.Basic)
+		return ok && bt.Kind() == types.UntypedNil
+	}
+	if a.typ != nil && b.typ != nil {
+		if _, ok := a.typ.Underlying().(*types.Slice); ok && isNil(b) {
+			return a, tv(nilSlice, a.typ)
+		}
+		if _, ok := b.typ.Underlying().(*types.Slice); ok && isNil(a) {
+			return tv(nilSlice, b.typ), b
+		}
+	}
+	return a, b
 }
 
 func (x *Exec) localNamed(name string, c *evalCtx) *ssa.Alloc {
@@ -185,26 +271,45 @@ func (x *Exec) localNamed(name string, c *evalCtx) *ssa.Alloc {
 
 func (x *Exec) evalIdent(name string, c *evalCtx) (typed, error) {
 	if b, ok := c.env[name]; ok {
-		return typed{b.t, b.typ}, nil
+		return tv(b.t, b.typ), nil
 	}
 	if name == "iter" && c.fr != nil { // range loop iteration counter = rangeindex + 1 of the innermost live range loop
 		if a := x.localNamed("rangeindex", c); a != nil {
-			return typed{smt.Add(c.st.cells[a], smt.IntLit(1)), types.Typ[types.Int]}, nil
+			return tv(smt.Add(c.st.cells[a], smt.IntLit(1)), types.Typ[types.Int]), nil
 		}
 	}
 	if a := x.localNamed(name, c); a != nil {
 		st := c.st // locals always have their current value, old() only rewinds heaps and parameters
 		if v, ok := st.cells[a]; ok {
-			return typed{v, deref(a.Type())}, nil
+			return tv(v, deref(a.Type())), nil
+		}
+		if !x.isRegCell(a) {
+			// address-taken local: its value lives in a heap at the reference bound to the Alloc
+			for f := c.fr; f != nil; f = f.parent {
+				if ref, ok := f.regs[a]; ok {
+					et := deref(a.Type())
+					if isAggregate(et) {
+						return tv(ref, types.NewPointer(et)), nil
+					}
+					hn, hs := x.ptrHeap(et)
+					return tv(smt.Select(x.heap(x.curState(c), hn, hs), ref), et), nil
+				}
+			}
 		}
 	}
-	// package-level constants and error variables of the function's package
-	if x.fn.Pkg != nil {
+	switch name {
+	case "bempty":
+		x.bytesVocab()
+		return tv(smt.Raw("bempty", BytesSort), nil), nil
+	}
+	// package-level constants and variables of the contract's package
+	if o := x.lookupInPkg(c.pkg, name); o != nil {
+		return x.globalValue(o, c)
+	}
+	if x.fn != nil && x.fn.Pkg != nil {
 		if o := x.fn.Pkg.Pkg.Scope().Lookup(name); o != nil {
-			switch o := o.(type) {
-			case *types.Const:
-				return typed{smt.IntLitS(o.Val().ExactString()), o.Type()}, nil
-			case *types.Var:
+			switch o.(type) {
+			case *types.Const, *types.Var:
 				return x.globalValue(o, c)
 			}
 		}
@@ -212,36 +317,76 @@ func (x *Exec) evalIdent(name string, c *evalCtx) (typed, error) {
 	return typed{}, fmt.Errorf("unknown identifier %q", name)
 }
 
-func (x *Exec) lookupQualifiedGlobal(pkgName, name string) types.Object {
-	if x.fn.Pkg == nil {
+func (x *Exec) lookupInPkg(path, name string) types.Object {
+	if path == "" {
 		return nil
 	}
-	for _, imp := range x.fn.Pkg.Pkg.Imports() {
-		if imp.Name() == pkgName {
-			return imp.Scope().Lookup(name)
-		}
-	}
-	// also allow referring to any loaded package by its name
 	for _, p := range x.P.Prog.AllPackages() {
-		if p.Pkg.Name() == pkgName {
-			if o := p.Pkg.Scope().Lookup(name); o != nil {
+		if p.Pkg.Path() == path {
+			switch o := p.Pkg.Scope().Lookup(name).(type) {
+			case *types.Const, *types.Var:
 				return o
 			}
+			return nil
 		}
 	}
 	return nil
 }
 
+func (x *Exec) lookupQualifiedGlobal(pkgName, name string, c *evalCtx) types.Object {
+	pick := func(o types.Object) types.Object {
+		switch o.(type) {
+		case *types.Const, *types.Var:
+			return o
+		}
+		return nil
+	}
+	for _, p := range x.P.Prog.AllPackages() {
+		if p.Pkg.Path() == c.pkg || (x.fn != nil && x.fn.Pkg != nil && p.Pkg == x.fn.Pkg.Pkg) {
+			for _, imp := range p.Pkg.Imports() {
+				if imp.Name() == pkgName {
+					if o := imp.Scope().Lookup(name); o != nil {
+						return pick(o)
+					}
+				}
+			}
+		}
+	}
+	// any loaded package by its name (first in path order for determinism)
+	var best types.Object
+	bestPath := ""
+	for _, p := range x.P.Prog.AllPackages() {
+		if p.Pkg.Name() == pkgName {
+			if o := p.Pkg.Scope().Lookup(name); o != nil && pick(o) != nil {
+				if best == nil || p.Pkg.Path() < bestPath {
+					best, bestPath = o, p.Pkg.Path()
+				}
+			}
+		}
+	}
+	return best
+}
+
 func (x *Exec) globalValue(o types.Object, c *evalCtx) (typed, error) {
 	switch o := o.(type) {
 	case *types.Const:
-		return typed{smt.IntLitS(o.Val().ExactString()), o.Type()}, nil
+		switch o.Val().Kind() {
+		case constant.Int:
+			return tv(smt.IntLitS(o.Val().ExactString()), o.Type()), nil
+		case constant.Bool:
+			return tv(smt.BoolLit(constant.BoolVal(o.Val())), o.Type()), nil
+		case constant.String:
+			return tv(x.strConst(constant.StringVal(o.Val())), o.Type()), nil
+		}
 	case *types.Var:
 		if isErrorType(o.Type()) {
-			return typed{x.errGlobal(o.Pkg().Path() + "." + o.Name()), o.Type()}, nil
+			return tv(x.errGlobal(o.Pkg().Path()+"."+o.Name()), o.Type()), nil
+		}
+		if isAggregate(o.Type()) {
+			return tv(x.ctx.Const("&g$"+o.Pkg().Path()+"."+o.Name(), smt.Int), types.NewPointer(o.Type())), nil
 		}
 		hn := "G$" + o.Pkg().Path() + "." + o.Name()
-		return typed{x.heap(x.curState(c), hn, x.sortOf(o.Type())), o.Type()}, nil
+		return tv(x.heap(x.curState(c), hn, x.sortOf(o.Type())), o.Type()), nil
 	}
 	return typed{}, fmt.Errorf("unsupported global %s", o.Name())
 }
@@ -263,15 +408,45 @@ func (x *Exec) evalField(base typed, name string, c *evalCtx) (typed, error) {
 		if stt.Field(i).Name() == name {
 			ft := stt.Field(i).Type()
 			if isPtr {
+				if isAggregate(ft) {
+					return tv(x.interiorRef(t, i, base.t), types.NewPointer(ft)), nil
+				}
 				hn, hs := x.fieldHeap(t, i)
 				h := x.heap(x.curState(c), hn, hs)
-				return typed{smt.Select(h, base.t), ft}, nil
+				return tv(smt.Select(h, base.t), ft), nil
 			}
-			x.structSort(t, stt)
-			return typed{smt.App(x.sortOf(ft), smt.Sym(fmt.Sprintf("S$%s.%d", typeName(t), i)), base.t), ft}, nil
+			return tv(x.structField(t, stt, i, base.t), ft), nil
+		}
+	}
+	// promoted fields through embedded structs
+	for i := 0; i < stt.NumFields(); i++ {
+		if stt.Field(i).Embedded() {
+			var inner typed
+			ft := stt.Field(i).Type()
+			if isPtr {
+				if isAggregate(ft) {
+					inner = tv(x.interiorRef(t, i, base.t), types.NewPointer(ft))
+				} else {
+					hn, hs := x.fieldHeap(t, i)
+					inner = tv(smt.Select(x.heap(x.curState(c), hn, hs), base.t), ft)
+				}
+			} else {
+				inner = tv(x.structField(t, stt, i, base.t), ft)
+			}
+			if r, err := x.evalField(inner, name, c); err == nil {
+				return r, nil
+			}
 		}
 	}
 	return typed{}, fmt.Errorf("no field %s in %s", name, t)
+}
+
+func isSliceT(t types.Type) bool {
+	if t == nil {
+		return false
+	}
+	_, ok := t.Underlying().(*types.Slice)
+	return ok
 }
 
 func (x *Exec) evalBinary(e gcl.Binary, c *evalCtx) (typed, error) {
@@ -284,49 +459,62 @@ func (x *Exec) evalBinary(e gcl.Binary, c *evalCtx) (typed, error) {
 		return typed{}, err
 	}
 	b := types.Typ[types.Bool]
+	if l.pend != nil && r.pend == nil {
+		l = tv(l.pend(r.t.Sort), r.typ)
+	} else if r.pend != nil && l.pend == nil {
+		r = tv(r.pend(l.t.Sort), l.typ)
+	} else if l.pend != nil && r.pend != nil {
+		return typed{}, fmt.Errorf("cannot determine the sort of %s", e)
+	}
 	switch e.Op {
 	case "&&":
-		return typed{smt.And(l.t, r.t), b}, nil
+		return tv(smt.And(l.t, r.t), b), nil
 	case "||":
-		return typed{smt.Or(l.t, r.t), b}, nil
+		return tv(smt.Or(l.t, r.t), b), nil
 	case "==>":
-		return typed{smt.Implies(l.t, r.t), b}, nil
+		return tv(smt.Implies(l.t, r.t), b), nil
 	case "<==>":
-		return typed{smt.Eq(l.t, r.t), b}, nil
+		return tv(smt.Eq(l.t, r.t), b), nil
 	case "==", "!=", "===", "!==":
 		var eq smt.T
-		lt, rt := l.typ, r.typ
-		isSlice := func(t types.Type) bool {
-			if t == nil {
-				return false
-			}
-			_, ok := t.Underlying().(*types.Slice)
-			return ok
-		}
 		switch {
-		case e.Op[:2] != "==" || len(e.Op) == 2:
-			if isSlice(lt) && !isSlice(rt) { // s == nil
-				eq = smt.Eq(sArr(l.t), smt.IntLit(0))
-			} else if isSlice(rt) && !isSlice(lt) {
-				eq = smt.Eq(sArr(r.t), smt.IntLit(0))
-			} else {
-				eq = smt.Eq(l.t, r.t)
-			}
+		case isSliceT(l.typ) && !isSliceT(r.typ) && r.t.Sort != SliceSort: // s == nil
+			eq = smt.Eq(sArr(l.t), smt.IntLit(0))
+		case isSliceT(r.typ) && !isSliceT(l.typ) && l.t.Sort != SliceSort:
+			eq = smt.Eq(sArr(r.t), smt.IntLit(0))
 		default:
+			if l.t.Sort != r.t.Sort && l.t.Sort != "" && r.t.Sort != "" {
+				return typed{}, fmt.Errorf("comparison of %s (%s) and %s (%s)", e.L, l.t.Sort, e.R, r.t.Sort)
+			}
 			eq = smt.Eq(l.t, r.t)
 		}
 		if strings.HasPrefix(e.Op, "!") {
 			eq = smt.Not(eq)
 		}
-		return typed{eq, b}, nil
+		return tv(eq, b), nil
 	case "<", "<=", ">", ">=":
-		return typed{smt.App(smt.Bool, e.Op, l.t, r.t), b}, nil
+		if l.t.Sort != smt.Int || r.t.Sort != smt.Int {
+			if l.typ != nil && isString(l.typ) {
+				switch e.Op {
+				case "<":
+					return tv(x.less(l.t, r.t, l.typ, "<"), b), nil
+				case "<=":
+					return tv(x.less(l.t, r.t, l.typ, "<="), b), nil
+				case ">":
+					return tv(x.less(r.t, l.t, l.typ, "<"), b), nil
+				case ">=":
+					return tv(x.less(r.t, l.t, l.typ, "<="), b), nil
+				}
+			}
+			return typed{}, fmt.Errorf("ordering comparison of non-integers %s, %s", e.L, e.R)
+		}
+		return tv(smt.App(smt.Bool, e.Op, l.t, r.t), b), nil
 	case "+", "-", "*":
-		return typed{smt.App(smt.Int, e.Op, l.t, r.t), l.typ}, nil
+		return tv(smt.App(smt.Int, e.Op, l.t, r.t), l.typ), nil
 	case "/":
-		return typed{smt.App(smt.Int, "div", l.t, r.t), l.typ}, nil
+		return tv(smt.App(smt.Int, "div", l.t, r.t), l.typ), nil
 	case "%":
-		return typed{smt.App(smt.Int, "mod", l.t, r.t), l.typ}, nil
+		return tv(smt.App(smt.Int, "mod", l.t, r.t), l.typ), nil
 	}
 	return typed{}, fmt.Errorf("unsupported operator %s", e.Op)
 }
@@ -340,32 +528,88 @@ func (x *Exec) evalCall(e gcl.Call, c *evalCtx) (typed, error) {
 		}
 		args = append(args, v)
 	}
+	intT := types.Typ[types.Int]
 	switch e.Fun {
 	case "len":
-		if len(args) == 1 && args[0].typ != nil {
-			if _, ok := args[0].typ.Underlying().(*types.Slice); ok {
-				return typed{sLen(args[0].t), types.Typ[types.Int]}, nil
+		if len(args) == 1 {
+			if args[0].typ != nil {
+				if _, ok := args[0].typ.Underlying().(*types.Slice); ok {
+					return tv(sLen(args[0].t), intT), nil
+				}
+				if arr, ok := args[0].typ.Underlying().(*types.Array); ok {
+					return tv(smt.IntLit(arr.Len()), intT), nil
+				}
+				if isString(args[0].typ) {
+					return tv(x.slen(args[0].t), intT), nil
+				}
 			}
-			if arr, ok := args[0].typ.Underlying().(*types.Array); ok {
-				return typed{smt.IntLit(arr.Len()), types.Typ[types.Int]}, nil
+			if args[0].t.Sort == SliceSort {
+				return tv(sLen(args[0].t), intT), nil
 			}
-			f := x.ctx.Fun("slen", []string{args[0].t.Sort}, smt.Int)
-			return typed{smt.App(smt.Int, f, args[0].t), types.Typ[types.Int]}, nil
+			if args[0].t.Sort == BytesSort {
+				x.bytesVocab()
+				return tv(smt.App(smt.Int, "blen", args[0].t), intT), nil
+			}
 		}
+		return typed{}, fmt.Errorf("len of %s", e.Args[0])
 	case "cap":
-		return typed{sCap(args[0].t), types.Typ[types.Int]}, nil
+		return tv(sCap(args[0].t), intT), nil
 	case "errIs":
-		return typed{x.errIs(args[0].t, args[1].t), types.Typ[types.Bool]}, nil
+		return tv(x.errIs(args[0].t, args[1].t), types.Typ[types.Bool]), nil
 	case "max":
-		return typed{smt.Ite(smt.Lt(args[0].t, args[1].t), args[1].t, args[0].t), args[0].typ}, nil
+		return tv(smt.Ite(smt.Lt(args[0].t, args[1].t), args[1].t, args[0].t), args[0].typ), nil
 	case "min":
-		return typed{smt.Ite(smt.Lt(args[1].t, args[0].t), args[1].t, args[0].t), args[0].typ}, nil
+		return tv(smt.Ite(smt.Lt(args[1].t, args[0].t), args[1].t, args[0].t), args[0].typ), nil
+	case "content": // content(s): Bytes value of a byte slice (in the current or old state)
+		if len(args) == 1 && args[0].t.Sort == SliceSort {
+			return tv(x.content(x.curState(c), args[0].t), nil), nil
+		}
+		if len(args) == 1 && args[0].typ != nil && isString(args[0].typ) {
+			x.bytesVocab()
+			f := x.ctx.Fun("bytes$of", []string{x.ctx.Sort(StrSort)}, BytesSort)
+			return tv(smt.App(BytesSort, f, args[0].t), nil), nil
+		}
+		return typed{}, fmt.Errorf("content of non-slice %s", e.Args[0])
+	case "blen":
+		x.bytesVocab()
+		return tv(smt.App(smt.Int, "blen", args[0].t), intT), nil
+	case "bcmp":
+		x.bytesVocab()
+		return tv(x.bcmp(args[0].t, args[1].t), intT), nil
+	case "isnil":
+		if args[0].t.Sort == SliceSort {
+			return tv(smt.Eq(sArr(args[0].t), smt.IntLit(0)), types.Typ[types.Bool]), nil
+		}
+		return tv(smt.Eq(args[0].t, smt.IntLit(0)), types.Typ[types.Bool]), nil
+	case "arr": // identity of the backing array of a slice
+		return tv(sArr(args[0].t), intT), nil
+	case "off":
+		return tv(sOff(args[0].t), intT), nil
+	case "fresh": // fresh(r): r was allocated during this activation (slices: their backing array)
+		r := args[0].t
+		if r.Sort == SliceSort {
+			r = sArr(r)
+		}
+		return tv(smt.Not(x.notFresh(r)), types.Typ[types.Bool]), nil
+	case "dyntype":
+		f := x.ctx.Fun("dyntype", []string{smt.Int}, smt.Int)
+		return tv(smt.App(smt.Int, f, args[0].t), intT), nil
 	}
-	// ghost heaps:  g(obj)
-	if sort, ok := x.P.Ghosts[e.Fun]; ok && len(args) == 1 {
-		hn := "GH$" + e.Fun
-		h := x.heap(x.curState(c), hn, smt.ArraySort(smt.Int, sort))
-		return typed{smt.Select(h, args[0].t), nil}, nil
+	// ghost heaps:  g(obj, k...)
+	if g, ok := x.P.Ghosts[e.Fun]; ok {
+		n := len(g.Params)
+		if n == 0 {
+			n = 1
+		}
+		if len(args) != n {
+			return typed{}, fmt.Errorf("ghost %s: wrong number of arguments", e.Fun)
+		}
+		hn, hs := x.ghostHeap(g)
+		v := x.heap(x.curState(c), hn, hs)
+		for _, a := range args {
+			v = smt.Select(v, a.t)
+		}
+		return tv(v, x.specGoType(g.Ret)), nil
 	}
 	// spec functions
 	if sp, ok := x.P.Specs[e.Fun]; ok {
@@ -381,17 +625,38 @@ func (x *Exec) evalCall(e gcl.Call, c *evalCtx) (typed, error) {
 			for i, p := range sp.Params {
 				c2.env[p[0]] = binding{args[i].t, args[i].typ}
 			}
+			c2.fr = nil // spec bodies see their parameters, ghost state and globals only
 			return x.evalTyped(sp.Body, &c2)
 		}
 		var sorts []string
 		var ts []smt.T
+		name := "spec$" + e.Fun
 		for i, p := range sp.Params {
-			sorts = append(sorts, x.specSort(p[1]))
+			if args[i].pend != nil {
+				return typed{}, fmt.Errorf("spec %s: argument %d has no determined sort", e.Fun, i)
+			}
+			var s string
+			if p[1] == "any" {
+				s = args[i].t.Sort
+				name += "$" + sortTag(s)
+			} else {
+				s = x.specSort(p[1])
+			}
+			if args[i].t.Sort != s && args[i].t.Sort != "" {
+				return typed{}, fmt.Errorf("spec %s: argument %d has sort %s, want %s", e.Fun, i, args[i].t.Sort, s)
+			}
+			sorts = append(sorts, s)
 			ts = append(ts, args[i].t)
 		}
+		if sp.Ret == "any" {
+			return typed{pend: func(ret string) smt.T {
+				f := x.ctx.Fun(name+"$"+sortTag(ret), sorts, ret)
+				return smt.App(ret, f, ts...)
+			}}, nil
+		}
 		ret := x.specSort(sp.Ret)
-		f := x.ctx.Fun("spec$"+e.Fun, sorts, ret)
-		return typed{smt.App(ret, f, ts...), x.specGoType(sp.Ret)}, nil
+		f := x.ctx.Fun(name, sorts, ret)
+		return tv(smt.App(ret, f, ts...), x.specGoType(sp.Ret)), nil
 	}
 	return typed{}, fmt.Errorf("unknown function %s in contract", e.Fun)
 }
@@ -402,21 +667,37 @@ func (x *Exec) specSort(s string) string {
 		return smt.Int
 	case "Bool", "bool":
 		return smt.Bool
-	case "Slice", "Bytes":
+	case "Slice":
 		x.declSlice()
 		return SliceSort
+	case "Bytes":
+		x.bytesVocab()
+		return BytesSort
+	case "Str", "string":
+		return x.ctx.Sort(StrSort)
+	}
+	if strings.HasPrefix(s, "TP$") {
+		return x.ctx.Sort(s)
 	}
 	return x.ctx.Sort(s)
 }
 
 func (x *Exec) specGoType(s string) types.Type {
 	switch s {
-	case "Slice", "Bytes":
+	case "Slice":
 		return types.NewSlice(types.Typ[types.Uint8])
 	case "Int", "int":
 		return types.Typ[types.Int]
 	case "Bool", "bool":
 		return types.Typ[types.Bool]
+	case "Str", "string":
+		return types.Typ[types.String]
 	}
 	return nil
 }
+
+func sortTag(s string) string {
+	return strings.NewReplacer("(", "<", ")", ">", " ", "_", "|", "").Replace(s)
+}
+
+func tv(t smt.T, typ types.Type) typed { return typed{t: t, typ: typ} }
